@@ -1,5 +1,90 @@
-import Claripy.VSA.Conc
-import ClaripyProofs.Lemmas.VSA.AddSub
-/-! # C24 (placeholder, replaced below) -/
+import ClaripyProofs.Lemmas.VSA.Convert
+/-!
+# C24 — VSA evaluation of expressions over annotated variables over-approximates
+
+`Claripy.VSA.convBV/convB` model `BackendVSA.convert` on the ASTs claripy hands to the backend: operator dispatch,
+`apply_annotation` on leaves, `If` (join), `And/Or/Not` on BoolResult, name-based `eq`.  The model is tied to the real
+backend by exact correspondence on ~14 k random ASTs per run (harness/props/C24.py).
+
+The theorems are proved by structural induction for ALL ASTs, widths, assignments and set orders, *from* the bundle
+`OpsOK` of per-operation obligations (C21/C22: closure under well-formedness and soundness on members).  `OpsOK` is a
+hypothesis: its `add` component is proved (C21_add_sound); the remaining components are the open proof obligations of
+C21/C22 and are at present established only by correspondence + bounded oracle.
+-/
 namespace Claripy.Props.C24
+open Claripy.VSA
+
+/-- the abstract value of a bit-vector AST is well formed, has the AST's width and contains its concrete value under
+every assignment that respects the annotations; a name it still carries means "equal to that variable" -/
+theorem C24_convert_sound (H : OpsOK) (anno : Nat → SI) (env : Nat → Nat)
+    (hctx : ∀ i, (anno i).WF ∧ (anno i).mem (env i))
+    (e : BV) (o o' : Orders) (av : AV) (hwt : WTBV anno env e) (h : convBV anno e o = .ok (av, o'))
+    (v : Nat) (hv : evalBV env e = some v) : av.si.WF ∧ av.si.bits = wd e ∧ av.si.mem v :=
+  let g := convBV_good H anno env hctx e o av o' hwt h
+  ⟨g.1.1, g.1.2, (g.2 v hv).1⟩
+
+/-- Boolean ASTs: the abstract truth value admits every truth value that occurs -/
+theorem C24_bool_sound (H : OpsOK) (anno : Nat → SI) (env : Nat → Nat)
+    (hctx : ∀ i, (anno i).WF ∧ (anno i).mem (env i))
+    (c : BExp) (o o' : Orders) (br : BoolRes) (hwt : WTB anno env c) (h : convB anno c o = .ok (br, o'))
+    (b : Bool) (hb : evalB env c = some b) : br.has b = true :=
+  convB_good H anno env hctx c o br o' hwt h b hb
+
+/-- `If`: whichever branch the concrete condition selects, its value is in the result (a branch is dropped only when
+the abstract condition excludes it) -/
+theorem C24_if_join (H : OpsOK) (cv : BoolRes) (x y r : AV) (c : Bool) (vx vy : Nat)
+    (hx : x.si.WF ∧ x.si.mem vx) (hy : y.si.WF ∧ y.si.mem vy) (hbits : x.si.bits = y.si.bits)
+    (hc : cv.has c = true) (h : iteBV cv x y = .ok r) : r.si.mem (if c then vx else vy) := by
+  unfold iteBV at h
+  by_cases hT : (!cv.hasTrue) = true
+  · rw [if_pos hT] at h
+    have := pure_ok _ _ h
+    subst this
+    cases c with
+    | true => simp [BoolRes.has] at hc; simp [hc] at hT
+    | false => simpa using hy.2
+  · rw [if_neg hT] at h
+    by_cases hF : (!cv.hasFalse) = true
+    · rw [if_pos hF] at h
+      have := pure_ok _ _ h
+      subst this
+      cases c with
+      | false => simp [BoolRes.has] at hc; simp [hc] at hF
+      | true => simpa using hx.2
+    · rw [if_neg hF] at h
+      obtain ⟨u, hu, h⟩ := bind_ok _ _ _ h
+      have := pure_ok _ _ h
+      subst this
+      have := (H.union x.si y.si u hx.1 hy.1 hbits hu).2
+      cases c with
+      | true => simpa using this vx (Or.inl hx.2)
+      | false => simpa using this vy (Or.inr hy.2)
+
+/-- the obligations on the interval queries that SolverVSA forwards to (C22) -/
+structure QueriesOK : Prop where
+  min : ∀ (s : SI) (m : Int) (x : Nat), s.WF → s.mem x → s.min false = .ok (some m) → m ≤ x
+  max : ∀ (s : SI) (m : Int) (x : Nat), s.WF → s.mem x → s.max false = .ok (some m) → (x : Int) ≤ m
+
+/-- `SolverVSA.min/max` (LightFrontend forwards to the backend, ignoring constraints) never exclude a value the
+expression takes -/
+theorem C24_light_min_max_over (H : OpsOK) (Q : QueriesOK) (anno : Nat → SI) (env : Nat → Nat)
+    (hctx : ∀ i, (anno i).WF ∧ (anno i).mem (env i))
+    (e : BV) (o o' : Orders) (av : AV) (hwt : WTBV anno env e) (h : convBV anno e o = .ok (av, o'))
+    (v : Nat) (hv : evalBV env e = some v) :
+    (∀ m, av.si.min false = .ok (some m) → m ≤ v) ∧ (∀ m, av.si.max false = .ok (some m) → (v : Int) ≤ m) := by
+  obtain ⟨hw, _, hm⟩ := C24_convert_sound H anno env hctx e o o' av hwt h v hv
+  exact ⟨fun m hmin => Q.min av.si m v hw hm hmin, fun m hmax => Q.max av.si m v hw hm hmax⟩
+
+/-- non-vacuity and a bounded sanity fact: `If(x <u 4, x + 1, 0)` with `x ∈ 1[2,6]` at 3 bits -/
+def demoExpr : BV := .ite (.cmp .ult (.var 0 3) (.const 4 3)) (.bin .add (.var 0 3) (.const 1 3)) (.const 0 3)
+def demoAnno : Nat → SI := fun _ => SI.new 3 1 2 6
+
+theorem test_eval_example :
+    (convBV demoAnno demoExpr []).map (fun p => p.1.si) = .ok (SI.new 3 1 3 0) ∧
+    evalBV (fun _ => 3) demoExpr = some 4 ∧ evalBV (fun _ => 5) demoExpr = some 0 := by decide
+
+example : WTBV demoAnno (fun _ => 3) demoExpr := by
+  simp only [demoExpr, WTBV, WTB, wd, demoAnno, new_bits]
+  decide
+
 end Claripy.Props.C24
